@@ -12,11 +12,14 @@ ENGINE_CFG = {"default_unwind": 14}
 HARNESSES = [
     {"name": "encryptedcookie16", "fn": K + "VerifC08EncryptedCookieDecode16", "bounds": "every byte string of 0..16 bytes"},
     {"name": "servercookie16", "fn": K + "VerifC08ServerCookieDecode16", "bounds": "every byte string of 0..16 bytes"},
-    {"name": "cookiedecrypt", "fn": K + "VerifC08CookieDecrypt", "bounds": "every byte string of 0..48 bytes, ideal AEAD", "cfg": {"aead_bound": 48}},
+    {"name": "cookiedecrypt", "fn": K + "VerifC08CookieDecrypt", "bounds": "every byte string of 0..48 bytes, ideal AEAD", "cfg": {"aead_bound": 48}, "inproc_ms": 30000},
     {"name": "ntsdecode32", "fn": N + "VerifC08NTSDecode32", "bounds": "every datagram of 48..80 bytes; extension walk unwound 14x with unwinding obligation", "unwind_is_violation": True, "replay_timeout": 20},
     {"name": "ntsprocess40", "fn": N + "VerifC08NTSProcess40", "bounds": "every datagram of 48..88 bytes, arbitrary 32-byte key, ideal AEAD", "unwind_is_violation": True, "replay_timeout": 20, "cfg": {"aead_bound": 88}},
     {"name": "authwalk28", "fn": N + "VerifC08AuthWalk28", "bounds": "every 28-byte plaintext sealed by the real encoder", "unwind_is_violation": True, "replay_timeout": 20},
     {"name": "authwalk36", "fn": N + "VerifC08AuthWalk36", "bounds": "every 36-byte plaintext sealed by the real encoder", "unwind_is_violation": True, "replay_timeout": 20},
+    {"name": "replyencode8", "fn": N + "VerifC08ReplyEncode8", "bounds": "reply with 8 arbitrary 124-byte cookies (1148 bytes > MaxPacketLen), arbitrary key and unique id, ideal AEAD", "cfg": {"aead_bound": 1200, "copy_bound": 160}},
+    {"name": "replyencode7", "fn": N + "VerifC08ReplyEncode7", "bounds": "reply with 7 arbitrary 124-byte cookies (1020 bytes)", "cfg": {"aead_bound": 1200, "copy_bound": 160}},
+    {"name": "replyencode9", "fn": N + "VerifC08ReplyEncode9", "bounds": "reply with 9 arbitrary 124-byte cookies", "cfg": {"aead_bound": 1200, "copy_bound": 160}},
     {"name": "kestream12", "fn": K + "VerifC20ReadData12", "install": [stubs.install_stream], "cfg": {"default_unwind": 8, "copy_bound": 24},
      "bounds": "ntske.ReadData on every NTS-KE record stream of 0..12 bytes (<= 3 records) in every segmentation into reads: no panic, loops within their unwinding bounds"},
     {"name": "authwalk60", "fn": N + "VerifC08AuthWalk60", "bounds": "every 60-byte plaintext sealed by the real encoder", "unwind_is_violation": True, "replay_timeout": 20, "thorough_only": True},
@@ -26,5 +29,5 @@ HARNESSES = [
 ASSUMPTIONS = []
 EXPLANATION = ""
 CLAIMED = True
-LEVEL_TEXT = "Bounded model checking of the real decoders on fully symbolic buffers of every length up to the tier bound: ntske cookie decoders and Decrypt, ntske.ReadData (record streams <= 12 bytes), nts.DecodePacket, ProcessRequest/authenticate (incl. the walk over decrypted fields sealed by the real encoder). The obligations are the engine's built-in ones: no reachable panic (index, slice bounds, nil, explicit panic, AEAD nonce-length panic) and every loop terminates within its unwinding bound (an unwinding obligation that is satisfiable IS the hang and is replayed natively under a time limit)."
+LEVEL_TEXT = "Bounded model checking of the real decoders on fully symbolic buffers of every length up to the tier bound: ntske cookie decoders and Decrypt, ntske.ReadData (record streams <= 12 bytes), nts.DecodePacket, ProcessRequest/authenticate (incl. the walk over decrypted fields sealed by the real encoder), and the encoder building the listener's reply for as many cookies as the requester asked for (7, 8 and 9 cookies; 8 and 9 are beyond MaxPacketLen). The obligations are the engine's built-in ones: no reachable panic (index, slice bounds, nil, explicit panic, AEAD nonce-length panic) and every loop terminates within its unwinding bound (an unwinding obligation that is satisfiable IS the hang and is replayed natively under a time limit)."
 LEVEL_NOTE = "buffers: cookies <= 16 (quick) / 40 bytes, NTS datagrams <= 80/88 (quick) bytes, plaintext walks 28/36/60 bytes; ideal AEAD; the IP listener loop is exercised by C09's and C11's listener harnesses (datagrams <= 56 bytes and one authenticated request); NOT covered: runSCIONServer, CSPTP listener/client, NTS-KE server, SCION forwarder, udp.TimestampFromOOBData, scion auth option parsing, gopacket/slayers/quic-go internals."
